@@ -35,15 +35,15 @@ static int have_ref;
 static time_t tmin(void) { return (time_t) ((uint64_t) 1 << (sizeof(time_t) * 8 - 1)); }
 static time_t tmax(void) { return (time_t) (((uint64_t) 1 << (sizeof(time_t) * 8 - 1)) - 1); }
 
-static long long fdiv(long long a, long long b) { long long q = a / b; if ((a % b != 0) && ((a < 0) != (b < 0))) --q; return q; }
+static __int128 fdiv(__int128 a, __int128 b) { __int128 q = a / b; if ((a % b != 0) && ((a < 0) != (b < 0))) --q; return q; }
 
 static void triple(char *out, time_t t)
 {
-	long long days = fdiv((long long) t, DAY);
-	long long s = (long long) t - days * DAY;
-	long long e = fdiv(days, CYCLE);
-	long long d = days - e * CYCLE;
-	sprintf(out, "[%lld,%lld,%lld]", e, d, s);
+	__int128 days = fdiv((__int128) t, DAY);
+	__int128 s = (__int128) t - days * DAY;
+	__int128 e = fdiv(days, CYCLE);
+	__int128 d = days - e * CYCLE;
+	sprintf(out, "[%lld,%lld,%lld]", (long long) e, (long long) d, (long long) s);
 }
 
 static int from_triple(time_t *t, long long e, long long d, long long s)
